@@ -41,6 +41,17 @@ CLAIMED = {
             "DESIGN.md §4 C04",
             BASE_NOTE + " Decoders above io (values, packs, steps, records) inherit no-fabrication because every token read bottoms out in ReadBytes; the allocation budget is per make site (not cumulative) and element decoders called from a list's loop are abstracted in the list's unit (they are their own units); counts carried in 8 or 16 bits (CompositePack, record lists, text arrays) are bounded by the field width and not checked against the input. tcp-backed inputs are outside the contracts.",
             TECH),
+    "C06": ("other",
+            "PARTIAL, by design of the technique: the sequential, per-function part of the property is proved, the scheduling part only through a lock discipline. Proved (contracts over a ghost model of the outgoing byte stream and a ghost frame log): "
+            "makeData builds exactly one frame (source 10, version 0, project code, hash of the license in effect, length, pack type); send appends exactly that buffer once and in order or, on error, a prefix to a writer that is then sticky-failed; "
+            "invariant: a stream that is not a whole number of frames belongs to a writer that refuses every further byte; Connect yields a fresh writer with an empty stream (a partial frame's buffered tail never reaches a new connection); "
+            "sendDirect holds the process-wide send lock for the whole frame + flush and releases it on every exit, closes the connection on a send error; SendFlush in queue mode returns nil iff the element was enqueued at the tail; "
+            "SendAndClear emits one frame per queued element in FIFO order and on error keeps the rest of the queue untouched; Flush/SendAndClear are total on a client that never connected. Lock discipline: every access to conn/wr by every exported method and by the queue goroutine must hold the send lock — "
+            "the seven places where it does not are genuine races (known findings) and are exactly the schedules under which frames can interleave.",
+            "DESIGN.md §4 C06, §10.4",
+            BASE_NOTE + " TRUSTED models of bufio.Writer (Write accepts all or a prefix + sticky error, Flush, Buffered), net.Conn (Close, SetWriteDeadline), net.DialTimeout, bufio.NewWriterSize, fmt.Errorf/errors.New, logger methods; Pack and TcpClientOption are arbitrary interface values (the per-send license override is only existentially specified). "
+            "NOT decided: interleavings beyond the lock discipline, process() as a whole (select/ctx not modelled; its body is covered by the lock unit only), TCP-level delivery and what the peer receives, timing of reconnection, liveness.",
+            TECH),
     "C07": ("proof",
             "For each UDP pack type a proof harness derived from the AST of Write and frozen: decode(encode(p)) at the same (symbolic) version consumes the "
             "stream exactly, re-encodes to the same token stream (checked token by token) and restores every field Write emits under the version gate under "
